@@ -36,12 +36,15 @@ def gen_cases(tier, seed):
     rng = np.random.default_rng([seed, 8])
     q = tier == "quick"
     cases = []
-    combos = [("rhf", "restricted"), ("uhf", "unrestricted"), ("noci", "unrestricted"), ("ucisd", "unrestricted"), ("uhf", "cpmc"), ("ghf", "cpmc_slow")]
+    # ("uhf", "restricted-open"): restricted walkers (norb x n_up) with an open-shell trial, the beta block is their first n_dn columns
+    combos = [("rhf", "restricted"), ("uhf", "unrestricted"), ("noci", "unrestricted"), ("ucisd", "unrestricted"), ("uhf", "cpmc"), ("ghf", "cpmc_slow"),
+              ("uhf", "restricted-open")]
     if not q:
-        combos += [("uhf", "restricted"), ("cisd", "restricted"), ("ghf", "cpmc"), ("uhf", "cpmc_slow"), ("multislater", "unrestricted")]
+        combos += [("uhf", "restricted"), ("cisd", "restricted"), ("ghf", "cpmc"), ("uhf", "cpmc_slow"), ("multislater", "unrestricted"), ("noci", "restricted-open"),
+                   ("ghf", "restricted-open")]
     for (kind, p) in combos:
         for rep in range(1 if q else 4):
-            cases.append({"type": "replay", "kind": kind, "prop": p, "shape": [int(rng.integers(2, 5)), int(rng.integers(1, 3)), int(rng.integers(1, 3))],
+            cases.append({"type": "replay", "kind": kind, "prop": p, "shape": [int(rng.integers(2, 5)), int(rng.integers(1, 3)) if rep else 2, int(rng.integers(1, 3))],
                           "calls": 3, "dt": float(rng.choice([0.01, 0.05])), "s": int(rng.integers(1 << 30)), "group": "rp-%s-%s-%d" % (kind, p, rep), "cost": 20})
     for entry in ENTRY:
         for wt in ("rhf", "uhf"):
@@ -65,9 +68,9 @@ def _system(case, rng, nw):
     from ad_afqmc import hamiltonian, propagation, wavefunctions
 
     p = case["prop"]
-    if p in ("restricted", "unrestricted"):
-        wt = "rhf" if p == "restricted" else "uhf"
-        ne = (2, 2) if (wt == "rhf" or case["kind"] in ("rhf", "cisd")) else (2, 1)
+    if p in ("restricted", "unrestricted", "restricted-open"):
+        wt = "uhf" if p == "unrestricted" else "rhf"
+        ne = (2, 1) if (p in ("unrestricted", "restricted-open") and case["kind"] not in ("rhf", "cisd")) else (2, 2)
         S = afqmc.make_system(case["kind"], 4, ne, rng, walker_type=wt, dt=case["dt"], n_walkers=nw, nchol=3, chol_scale=0.5, orthonormal=True,
                               trial_opts={"ms_ndets": 6} if case["kind"] == "multislater" else None)
         w0 = afqmc.noisy_walkers(rng, S, nw, noise=0.1, walker_type=wt)
